@@ -67,7 +67,7 @@ def model_line(src):
 
 ATOMS = ['A', 'B1', '_x', 'Cmd', 'True', 'False', '5', '-3', '+7', '007', '1.5', '.5', '2.', '-1.e3', '1e5', '"s"', "'t'", '"a b"', '"a\\nb"', 'x.y', 'é',
          'a-b', '/p/q.txt', '%z', '=', '=', '(', ')', '(', ')', '[', ']', ',', ',', ':', ' ', ' ', '\n', '\t', '# c\n', '\r\n', '"', "'", '\\', '"q\\""',
-         '5abc', '1.5x', '- ', '.', '"é☃"', "'\\t\\x41\\u00e9'", '"\\q"', '"\\x4"', "'a\\\nb'", '"multi\nline"', '1.50', '0.10', '12.', '☃', '\r']
+         '5abc', '1.5x', '- ', '.', '"é☃"', "'\\t\\x41\\u00e9'", '"\\q"', '"\\x4"', "'a\\\nb'", '"multi\nline"', '1.50', '0.10', '12.', '☃', '\r', '-0.', '-0.0', '-.0', '-0e3', '-0', '+0.0', '0.', '-0.0e-2']
 
 
 def rand_tokens(rng):
@@ -76,7 +76,7 @@ def rand_tokens(rng):
 
 VALUES = ['Foo', 'foo bar', '5', '-2', '1.25', '.5', '1.', '"q s"', "'q'", 'True', 'false', 'C:\\a\\b', 'a:b:c', '5abc', '5 abc', '1.5 x', 'x 5 y', 'é x', 'x-1',
           'a.b c', '007', '+5', '1e5', '1.e5', 'x\n y', '%a', '"multi\nline"', '5:6', 'a:5', '5:a', '"esc \\" \\\\ \\n"', "'it\\'s'", '"snow ☃ \\t"', '0.125', '100.',
-          '"C:\\\\temp\\\\new.csv"', '"\\101\\x41"', '1.50x', '2.x', 'http://x.y:80/z', '"\\u2603"', "''", '""']
+          '"C:\\\\temp\\\\new.csv"', '"\\101\\x41"', '1.50x', '2.x', 'http://x.y:80/z', '"\\u2603"', "''", '""', '-0.0', '-0.x', '-0.0 m', '-0 x', '+0.0z', '-0e3q']
 
 
 def rand_value(rng, d=0):
